@@ -63,7 +63,11 @@ class JinjaAI:
         (names the template assigns itself are not configuration)."""
         stored = {n.name for n in self.tree.find_all(nodes.Name) if n.ctx == "store"}
         out = []
+        asked_of_stored = set()
         for n in self.tree.find_all((nodes.Test, nodes.Filter)):
+            if ((isinstance(n, nodes.Test) and n.name in ("defined", "undefined")) or (isinstance(n, nodes.Filter) and n.name in ("default", "d"))) \
+                    and isinstance(n.node, nodes.Name) and n.node.name in stored:
+                asked_of_stored.add(n.node.name)
             if ((isinstance(n, nodes.Test) and n.name in ("defined", "undefined")) or (isinstance(n, nodes.Filter) and n.name in ("default", "d"))) \
                     and isinstance(n.node, nodes.Name) and n.node.name not in out and n.node.name not in stored:
                 out.append(n.node.name)
@@ -72,6 +76,19 @@ class JinjaAI:
                 for a in n.args:
                     if isinstance(a, nodes.Name) and a.name not in out and a.name not in stored:
                         out.append(a.name)
+        # `set x = y` hands y's being defined or not on to x: when the template asks it of x, it asks it of y
+        changed = True
+        while changed:
+            changed = False
+            for a in self.tree.find_all(nodes.Assign):
+                if isinstance(a.target, nodes.Name) and a.target.name in asked_of_stored and isinstance(a.node, nodes.Name):
+                    y = a.node.name
+                    if y in stored and y not in asked_of_stored:
+                        asked_of_stored.add(y)
+                        changed = True
+                    elif y not in stored and y not in out:
+                        out.append(y)
+                        changed = True
         return out
 
     def free_variables(self):
